@@ -1,5 +1,5 @@
 PROP = {
-    "thm": "Umya.Thm.C06",
+    "thm": ["Umya.Thm.C06", "Umya.Thm.C06Codec"],
     "harness": "c06",
     "level": "proof",
     "stateful": True,
@@ -16,7 +16,13 @@ PROP = {
                   "artefacts of every written package (<sheet name>, <definedName> texts, <mergeCell ref>, <autoFilter ref>, <hyperlink> elements + relationships, authors "
                   "table + authorIds) and what the reloaded workbook holds are compared with the model's output. Independently, the harness evaluates the property's oracle on "
                   "the implementation: full annotation dump before == after reload for 5 saves per workbook in one process, the 5 reloads agree, and a second generation "
-                  "(reload, save, reload) equals the first.",
+                  "(reload, save, reload) equals the first. Data validations and conditional formatting (second session): element-tree models of both codecs "
+                  "(Umya/Model/AnnotDv.lean, AnnotCf.lean) with full round-trip theorems for all well-formed values (C06_data_validation_codec, C06_data_validations_roundtrip, "
+                  "C06_cf_rule_codec, C06_conditional_formatting_roundtrip incl. dxfId resolution through a find-or-append table from any initial table), enum tables proved for every "
+                  "constructor and regenerated from the source on every run (C06_enum_tables, C06_enum_tables_match_source), four repaired defects each refuted for the unfixed model "
+                  "(*_unfixed_fails) and three residual edge losses refuted and listed (C06_cf_blank_color_fails, C06_cf_empty_sqref_fails, C06_cf_no_rules_fails). Tie on every run: "
+                  "the real <dataValidations>, <conditionalFormatting> and <dxfs> elements, parsed by the independent XML reader in the driver, are tree-equal to `write` of the value the "
+                  "harness set through the public API, the model reader on the real elements equals the reloaded getters, and a second generation ties the writer from a non-empty dxf table.",
     "level_note": "Trusted: Lean kernel + 3 standard axioms; the hand model's faithfulness as exercised by the correspondence stream; quick-xml 0.37.5 escape / unescape / "
                   "trim_text / event splitting (modelled); fancy_regex on the is_address regex (hand matcher, tied behaviourally through the dnr lines); the harness dump "
                   "functions (annot_entries) and the zip crate. The *_unfixed_*_fails refutations concern a model of the code BEFORE the fixes, which no longer runs; it was "
@@ -28,33 +34,67 @@ PROP = {
                         "C06_sheet_protection_flag_attr", "C06_workbook_protection_codec", "C06_tab_color_codec", "C06_tab_color_reachable", "C06_active_tab",
                         "C06_defined_name_attrs", "C06_enum_tables", "C06_pane_codec", "C06_selection_codec", "C06_sheet_view_codec", "C06_sheet_view_norm",
                         "C06_sheet_views_codec", "C06_sheet_view_strict_fails", "C06_active_cell_fails", "C06_page_setup_codec", "C06_page_margins_codec",
-                        "C06_print_options_codec", "C06_header_footer_codec", "C06_header_footer_nonempty", "C06_view_tables_match_source"],
+                        "C06_print_options_codec", "C06_header_footer_codec", "C06_header_footer_nonempty", "C06_view_tables_match_source",
+                        # data-validation / conditional-formatting codecs (Umya/Thm/C06Codec.lean)
+                        "C06_codec_channel", "C06_dvcf_enum_tables", "C06_enum_tables_match_source", "C06_data_validation_codec", "C06_data_validations_roundtrip",
+                        "C06_data_validations_positions", "C06_cf_dxf_table", "C06_cf_rule_codec", "C06_conditional_formatting_roundtrip", "C06_cf_formula_text",
+                        "C06_dv_type_unfixed_fails", "C06_dv_formula_unfixed_fails", "C06_cf_dxf_hash_unfixed_fails", "C06_cf_iconset_unfixed_fails",
+                        "C06_cf_blank_color_fails", "C06_cf_empty_sqref_fails", "C06_cf_no_rules_fails"],
     "rule": "case = one workbook: 8 fixed witnesses (the repaired defects + the residual ones), N workbooks generated from a per-case seed by wb::gen_book with rich "
             "annotations (1-6 sheets, 0..40 hyperlinks with tooltips / location links to quoted sheets, 0..30 comments over a pool of authors incl. the empty one, 0..36 merges, "
             "0..14 data validations, 0..12 conditional formats x 1-3 rules, auto filter, tab colour argb/theme/indexed, panes + selections, page setup / margins / print options, "
             "header / footer with & codes, sheet and workbook protection flags and hashes, 0..12 defined names per sheet incl. multi-area, quoted, whole-row/column, formula and "
             "constant texts, hidden / veryHidden, active tab, sometimes the last sheet removed again), and every 5th corpus file (all in the thorough tier); quick N=80, thorough "
             "N=1000; each workbook saved 5 times + second generation. Requests after the header are the tie lines of the first package (sheetlist, dnw/dnr per defined name, "
-            "range per merge / auto filter, links per sheet, comments per sheet). non-trivial = every tie line; distinct = distinct request line",
+            "range per merge / auto filter, links per sheet, comments per sheet). Codec cases: 8 witnesses (`c06 reset codecw <id>`: the four repaired defects, three residual ones, all "
+            "eight validation types) and N2 generated workbooks (`c06 reset codec <seed>`, quick N2=150, thorough 1500): 0-8 validations with every field set or unset independently, every "
+            "constructor of both enums in turn, texts from the special-character alphabet with blanks at the ends, 0-5 ranges of all four shapes; 1-2 sheets x 0-4 blocks x 1-4 rules over a pool "
+            "of 6 styles (incl. the hash-colliding pair), all 18/12/10/6 enum constructors, i32/u32 boundary values, scales with 0-3 cfvos / colours, formulas as text / bare area / sheet area "
+            "on 9 sheet names; each saved, reloaded, saved again. Tie lines: `c06 dvs` per sheet with validations, `c06 cf` per package and per second generation. non-trivial = every tie "
+            "line; distinct = distinct request line",
     "trusted_base": TB_COMMON + [
+        "C06 codecs: Umya/Spec/XmlLex.lean (the independent XML reader that parses the real elements in the driver); harness/src/c06codec.rs (specs written down while calling the "
+        "setters, enum spellings copied from ECMA-376, getter views, the raw-element scanner `elements`); Umya/Driver/C06Codec.lean (spec parser, attribute-order-insensitive tree "
+        "comparison, dxf signature); Rust f64 to_string / parse round trip for colour tints",
         "quick-xml 0.37.5: escape, partial_escape, unescape, trim_text, no text event for an empty text node (modelled in Umya/Model/XmlEsc.lean and Annot.lean)",
         "fancy_regex on the is_address regex: hand-written matcher Umya.Annot.isAddress, tied by the dnr lines",
         "harness/src/wb.rs annot_entries (what counts as the observable state of each annotation kind); zip crate",
         "BTreeMap<String, _> iteration order = code-point lexicographic order of the coordinate text (Umya.Annot.walkOrder)",
     ],
     "assumptions": [
+        "C06 codecs: ranges in sqref are one of the four printable shapes with columns <= ZZZ (18278) and rows < 2^32 (Dv.WF / BlockWF = the C17 hypotheses); priority / stdDev within i32, "
+        "rank within u32 (the Rust field types); a block has at least one range and one rule; scale colours hold at most one of theme / indexed / rgb (what the setters leave) and "
+        "something to write; the dxf table stays below 2^64 entries; a rule formula is a non-empty text is_address rejects, the empty formula, or a cell / cell:cell area, bare or on "
+        "a legal sheet name (FmlWF)",
         "sheet names are legal: non-empty, not starting with an apostrophe, without : \\ ? [ ] / * (C06_defined_name_roundtrip)",
         "areas of an address-valued defined name are cells or cell:cell ranges, columns <= ZZZ, rows < 2^32; other shapes take the verbatim-text path",
         "the written text of a defined name has no leading / trailing blank (C06_defined_name_channel: the reader trims text events); true of every printed area list, not proved",
         "every comment's author occurs in the authors table (it is built from the comments)",
+        "view / page / protection codecs: Coordinate column in 1..18278 and row < 2^32; sqref ranges of the four C17 shapes; u32 fields < 2^32; floats are opaque tokens with print-then-parse = id (Rust f64 Display / FromStr)",
     ],
     "partial_clauses": [
-        "data validations (type, operator, flags, prompts, formulas, sqref): harness oracle only, no Lean model",
-        "conditional-format ranges and rules (type, operator, text, priority, rank, flags, time period, formula, dxf style): harness oracle only",
-        "freeze panes / selections / sheet-view attributes: harness oracle only",
-        "page setup, page margins, print options: harness oracle only",
-        "header / footer text: harness oracle only (known finding: outer blanks trimmed on read)",
-        "sheet / workbook protection flags and hashes, tab colour, active tab, localSheetId / hidden of defined names: harness oracle only",
+        "data validations: the 2003-style <dataValidations> list is modelled and proved (Umya/Model/AnnotDv.lean, C06_data_validation_codec, C06_data_validations_roundtrip: "
+        "all twelve fields set or unset, any text, any number of ranges of the four printable shapes, any number of validations), at the level of element trees over the proved "
+        "escape channel (C06_codec_channel), tied on every run by the `c06 dvs` lines. NOT modelled: the x14 variant in <extLst> (office2010::excel::DataValidations, "
+        "Worksheet::set_data_validations_2010) — harness oracle of the general cases only; `count` is not read by the library and not part of the theorem; a Range that is not one "
+        "of the four shapes (e.g. only a start column) is outside Dv.WF",
+        "conditional formatting: blocks x rules are modelled and proved (Umya/Model/AnnotCf.lean, C06_cf_rule_codec, C06_conditional_formatting_roundtrip: 13 attributes, colorScale / "
+        "dataBar / iconSet with cfvo and colour lists, <formula> as free text or cell area, dxfId through a find-or-append table from any initial table), tied by the `c06 cf` lines. "
+        "Limits: the rule's style is an OPAQUE value standing for the (font, fill, borders, alignment) projection a dxf carries - the dxf element codec itself (C05 territory) is tied "
+        "only through a five-field signature (font name, size, bold, font rgb, fill fgColor rgb); number format / protection of a Style set on a rule are not carried by a dxf and are "
+        "lost (not observed here); a colour's tint is carried as its decimal text (f64 print / parse trusted); indexed colours inside scales and the attributes of <iconSet> / <dataBar> "
+        "elements themselves (iconSet=, showValue, minLength ...) are not held by the structs and not modelled; a formula text that is_address accepts but that is not in canonical "
+        "spelling (A01, 'S'!A1) is re-printed canonically (outside FmlWF, shown by an example); residual losses refuted and listed as known findings: a colour without attributes in a "
+        "scale is not written (C06_cf_blank_color_fails), a block without ranges reloads with one empty range (C06_cf_empty_sqref_fails), a block without rules is not read back "
+        "(C06_cf_no_rules_fails)",
+        "the tree-level readers of both codecs look at direct children and ignore the Empty / Start event distinction except where stated (blocks without children): foreign "
+        "spellings such as <formula/> or a <cfvo> with children under <dataBar> are read by the model but not by the code; only elements this library writes are in the theorems",
+        "view / page / protection codecs (sheet views, panes, selections, page setup, margins, print options, header / footer, sheet and workbook protection, tab colour, active tab, defined-name attributes) are modelled and proved per element at the level of the tree an XML reader delivers (Umya/Thm/C06View.lean); the part walk that finds the element (Empty vs Start events, nesting) is tied by the vpp stream only",
+        "printer-settings blob: the relationship lookup is a hypothesis of C06_page_setup_codec, observed through get_object_data",
+        "has-value differences after reload (explicit tabSelected=false, defaults materialised in pane / workbookViewId / margins, empty header text, empty tab-colour object) are normalised by explicit norms proved getter-invisible (C06_sheet_view_norm, C06_pane_norm, ...)",
+        
+        
+        
         "comment text, VML shape anchors and the positional join of shapes to comments: harness oracle only",
         "re-homing of defined names (localSheetId, or the sheet named in the first area) is observed through the dump (identity = name + scope), not modelled",
         "Worksheet::set_active_cell is not saved at all (known finding)",
